@@ -36,6 +36,8 @@ type Job struct {
 	Params     map[string]int    `json:"params"`
 	Sched      string            `json:"sched"`
 	SchedFuncs []string          `json:"sched_funcs"`
+	SchedScope []string          `json:"sched_scope"`
+	SchedDeps  []string          `json:"sched_deps"`
 	SchedOther string            `json:"sched_other"`
 	Prune      bool              `json:"prune"`
 	MaxPaths   int               `json:"max_paths"`
@@ -275,7 +277,7 @@ func main() {
 		ex := &interp.Explorer{Prog: prog, Pkg: sp, Cfg: interp.Config{
 			Harness: j.Harness, Workers: j.Workers, SolverBin: j.Solver, TimeoutMs: j.TimeoutMs,
 			MaxPaths: j.MaxPaths, MaxSteps: j.MaxSteps, Deadline: time.Duration(j.DeadlineS * float64(time.Second)),
-			Sched: j.Sched, SchedFuncs: j.SchedFuncs, SchedOther: j.SchedOther, Prune: j.Prune,
+			Sched: j.Sched, SchedFuncs: j.SchedFuncs, SchedScope: j.SchedScope, SchedDeps: j.SchedDeps, SchedOther: j.SchedOther, Prune: j.Prune,
 			Params: j.Params, Redirects: red, InitAllow: allow, Warmup: j.Warmup, Transcript: j.Transcript,
 			RepoPrefix: modPath, Concrete: j.Concrete, Witness: j.Witness, MapOrder: j.MapOrder, NoSkipGuard: j.NoSkipGuard, SampleWitnesses: j.SampleWitnesses, RecordAsserts: j.RecordAsserts,
 		}}
